@@ -46,6 +46,9 @@ func suiteSerde(rn *runner, r *rng, tier string) {
 			}
 			b.WriteByte(']')
 			text = b.String()
+		case cr.chance(1, 8):
+			// tags outnumber values: varint size classes of the two blocks differ
+			text = cr.literals([]int{100, 120, 125, 127, 128, 129, 200, 1000, 2000, 16384, 16500}[cr.intn(11)] + cr.intn(3))
 		default:
 			text = cr.doc(cfg)
 		}
@@ -105,13 +108,13 @@ func suiteSerde(rn *runner, r *rng, tier string) {
 					c.expectLast("<same document as the source>")
 				}
 				c.tc.ops = c.tc.ops[:0]
+				c.tc.impl = c.tc.impl[:0]
 				c.tc.expect = nil
 			}
 		}
 		// the runner re-executes the case; it must use the same modes
 		c.tc.class = fmt.Sprintf("nd=%v/m=%d>%d/reuse=%d/edits=%d/%s", nd, m1, m2, reuseKind, nEdits, sizeClass(len(text)))
-		pre := serdeOpts{m1: m1, m2: m2}
-		rn.addWith(c.tc, func() { nextSerde = pre })
+		rn.addPrepared(c.tc)
 	}
 	rn.rep.Rule = "parse (+0-3 edits), Serialize in mode m1, Deserialize by a serializer in mode m2 (fresh or reused serializers and destination); expectations from the reference tree; distinct = (nd, modes, reuse, edits, size)"
 }
